@@ -84,3 +84,40 @@ impl Readable for VarElem {
 		Ok(VarElem(v))
 	}
 }
+
+/// Variable-size element written the way `Writer::write_bytes` does it: a u64 length prefix followed by
+/// that many bytes (1..=40), read back with `Reader::read_bytes_len_prefix`.
+#[derive(Clone, Debug, PartialEq, Eq, Hash, PartialOrd, Ord)]
+pub struct LenElem(pub Vec<u8>);
+
+impl LenElem {
+	pub fn bytes(&self) -> Vec<u8> {
+		let mut v = (self.0.len() as u64).to_be_bytes().to_vec();
+		v.extend_from_slice(&self.0);
+		v
+	}
+}
+
+impl DefaultHashable for LenElem {}
+
+impl PMMRable for LenElem {
+	type E = Self;
+	fn as_elmt(&self) -> Self::E {
+		self.clone()
+	}
+	fn elmt_size() -> Option<u16> {
+		None
+	}
+}
+
+impl Writeable for LenElem {
+	fn write<W: Writer>(&self, writer: &mut W) -> Result<(), ser::Error> {
+		writer.write_bytes(&self.0)
+	}
+}
+
+impl Readable for LenElem {
+	fn read<R: Reader>(reader: &mut R) -> Result<LenElem, ser::Error> {
+		Ok(LenElem(reader.read_bytes_len_prefix()?))
+	}
+}
